@@ -142,6 +142,10 @@ func runC14(c *Ctx, idx int, o *Obs) {
 	// ---- average ---------------------------------------------------------------------------
 	{
 		k := 1 + r.Intn(6)
+		if idx%20 == 9 && n <= 16 {
+			k = gen.Pick(r, 100, 101, 150, 255, 256, 257, 300) // many small trees: every tree has the same weight in the mean
+		}
+		o.AddSet("list:average_over", fmt.Sprint(k))
 		texts := []string{text}
 		for i := 1; i < k; i++ {
 			m2 := gen.Tree(r, gen.Opts{N: n, Shape: "random", RootDeg: gen.Pick(r, 2, 3), MultiP: 0.2, Lens: lens, LenCls: "len"})
